@@ -128,12 +128,14 @@ def handle (case obs : List String) : String × String :=
     let payloadsAreMessages := (frs.filterMap (payloadMsg c.tab)).all (fun p => (itemsOf c.evs).contains p)
     let nT := (obs.filter (fun t => tokKind t = 't')).length
     let trailersOk := if c.cfg.server
-      then nT == 1 && (match afterFirstT obs with | some r => r.all (fun t => t = "n") | none => false)
+      then nT == 1 && (match afterFirstT (pollToks obs) with | some r => r.all (fun t => t = "n") | none => false)
       else nT == 0
     (m, verdict [("no-panic", !obs.any isBad),
                  ("body-is-whole-frames", left.isEmpty),
                  ("flag-matches-compression", flagsOk),
                  ("payloads-are-serialized-messages", payloadsAreMessages),
-                 ("one-trailers-block-nothing-after", trailersOk)])
+                 ("one-trailers-block-nothing-after", trailersOk),
+                 ("is-end-stream-only-after-the-trailers-or-last-data", endStreamOk c.cfg.server obs),
+                 ("size-hint-is-sound", sizeHintOk obs)])
   | _, _ => bad
 end DriverC03
